@@ -82,7 +82,14 @@ def corpus_cases(pid):
 
 def evaluate(prop, cases):
     """Run implementation and model on the cases and judge each."""
-    impl_outs = impl.run_impl(prop.worker, cases, hashseed=prop.hashseed())
+    groups = {}
+    for i, c in enumerate(cases):
+        groups.setdefault(c.get('_worker', prop.worker), []).append(i)
+    impl_outs = [None] * len(cases)
+    for w, idx in groups.items():
+        outs = impl.run_impl(w, [cases[i] for i in idx], hashseed=prop.hashseed())
+        for i, o in zip(idx, outs):
+            impl_outs[i] = o
     if hasattr(prop, 'model_case2'):
         mcases = [prop.model_case2(c, io) for c, io in zip(cases, impl_outs)]
     else:
